@@ -218,8 +218,8 @@ example : ¬ (2 < (C02Sys.ex1.node 3).term) ∧ 1 ≤ (C02Sys.ex1.node 3).log.en
 end C17Sys
 end Raft
 
-#print axioms Raft.C17Sys.election_possible_partial
-#print axioms Raft.C17Sys.progress_possible_partial
+#print axioms Raft.C17Sys.election_possible_partial -- also C16
+#print axioms Raft.C17Sys.progress_possible_partial -- also C16
 #print axioms Raft.Progress.election_run
 #print axioms Raft.Progress.progress_run
 #print axioms Raft.Progress.timeout_makes_candidate
